@@ -22,11 +22,19 @@ type Tier struct {
 	Thorough bool
 }
 
-func tierOf(name string) Tier {
-	if name == "thorough" {
-		return Tier{Name: name, MaxNodes: 5, Random: 20000, Depth: 6, Thorough: true}
+// Node bounds of the exhaustive part, measured on 16 idle cores (tier quick:
+// the largest bound that runs in <= 20 s; thorough: one more).
+var quickNodes = map[string]int{"C01": 5, "C02": 5, "C03": 5, "C04": 5, "C06": 5, "C10": 5, "C11": 5, "C16": 5, "C19": 4}
+
+func tierOf(prop, name string) Tier {
+	n := quickNodes[prop]
+	if n == 0 {
+		n = 4
 	}
-	return Tier{Name: "quick", MaxNodes: 4, Random: 2000, Depth: 6}
+	if name == "thorough" {
+		return Tier{Name: name, MaxNodes: n + 1, Random: 20000, Depth: 6, Thorough: true}
+	}
+	return Tier{Name: "quick", MaxNodes: n, Random: 2000, Depth: 6}
 }
 
 var Implemented = map[string]bool{"C01": true, "C02": true, "C03": true, "C04": true, "C06": true, "C10": true, "C16": true, "C11": true, "C19": true}
@@ -48,7 +56,7 @@ func Run(prop, tierName string, seed int64) (*report.Report, error) {
 	if !Implemented[prop] {
 		return nil, fmt.Errorf("property %s is not in harness group prog", prop)
 	}
-	tier := tierOf(tierName)
+	tier := tierOf(prop, tierName)
 	if s := os.Getenv("VERIF_MAXNODES"); s != "" {
 		if n, err := strconv.Atoi(s); err == nil {
 			tier.MaxNodes = n
@@ -219,10 +227,17 @@ func (w *Worker) process(c *Case, std []*EnvGroup, check CheckFn) {
 				w.unspec++
 			}
 			if v := check(w, cr, ir); v != nil {
-				w.report(c, cr, ir, v, check)
+				w.report(c, cr, ir, v, attrCheckOf(w.prop, check))
 			}
 		}
 	}
+}
+
+func attrCheckOf(prop string, check CheckFn) CheckFn {
+	if prop == "C06" {
+		return checkC06attr
+	}
+	return check
 }
 
 func pickSamples(r *report.Report, samples []string) {
